@@ -503,6 +503,11 @@ StandIn("C03/all-samplers", "C03", "same runs as C16/no-modification+on-grid (sh
 
 def _c16s_cases(tier, seed):
     rnd = random.Random(seed + 161)
+    # tiny spaces whose grid is largely (or fully) covered by the history, pools barely larger than the batch
+    for bs in (1, 2, 3):
+        for cover in (2, 4, 5):
+            yield {"dims": 1, "bs": bs, "pool": bs + rnd.randint(0, 2), "n_hist": cover, "seed": rnd.randrange(10 ** 6),
+                   "space_seed": -1, "pred_kind": rnd.choice(["random", "ties"])}
     for _ in range(12 if tier == "quick" else 150):
         yield {"dims": rnd.choice([1, 2, 3]), "bs": rnd.randint(1, 4), "pool": rnd.randint(4, 12),
                "n_hist": rnd.randint(1, 6), "seed": rnd.randrange(10 ** 6), "space_seed": rnd.randrange(10 ** 6),
@@ -512,7 +517,11 @@ def _c16s_cases(tier, seed):
 def _c16s_check(reg, case):
     from black_it.samplers.surrogate import MLSurrogateSampler
     rnd = random.Random(case["space_seed"])
-    space, *_ = _space(rnd, case["dims"])
+    if case["space_seed"] == -1:
+        from black_it.search_space import SearchSpace
+        space = SearchSpace([[0.0], [1.0]], [0.25], verbose=False)     # 5 grid points
+    else:
+        space, *_ = _space(rnd, case["dims"])
     seen = {}
 
     class Stub(MLSurrogateSampler):
@@ -532,6 +541,9 @@ def _c16s_check(reg, case):
     pool = max(case["pool"], case["bs"])
     s = Stub(case["bs"], random_state=case["seed"], candidate_pool_size=pool, max_deduplication_passes=0)
     pts, losses = _history(rnd, space, case["n_hist"], "plain")
+    if case["space_seed"] == -1:
+        pts = np.array(list(space.param_grid[0])[: case["n_hist"]], dtype=float).reshape(-1, 1)
+        losses = np.arange(len(pts), dtype=float)
     out = s.sample(space, pts, losses)
     X, y, Xc, yc = seen["fit"]
     if not (np.array_equal(X, pts) and np.array_equal(y, losses)):
@@ -557,6 +569,9 @@ def _c16s_check(reg, case):
     return None
 
 
+StandIn("C03/surrogate-rows", "C03", "same stub surrogates as C16/surrogate-stub incl. 9 tiny 5-point spaces whose grid is "
+        "mostly or fully in the history with pools of batch_size..batch_size+2: exactly batch_size on-grid rows",
+        "150 stubs", _c16s_cases, _c16s_check)
 StandIn("C16/surrogate-stub", "C16",
         "12 seeded stub surrogates (arbitrary / tied / constant predictions, pool 4-12, batch 1-4): trained on exactly "
         "the history, returns pool candidates, none of the unchosen has a lower prediction", "150 stubs",
